@@ -252,6 +252,7 @@ func checkC06(c *Ctx, r *Report) {
 
 	// requiredness
 	checkRequiredness(c, r, "C06.f")
+	checkIsContextExact(c, r, "C06.a")
 }
 
 // checkValidatorApplied: the validation converter is applied to the same schema with the
